@@ -484,4 +484,66 @@ Proof. intro H. unfold amp. rewrite run_app by exact H. cbn [run].
     rewrite (bsum_ext (chiL s) _ (fun l => bsum (d s) (fun q => u p q * (run e0 pre spre l * A s q l r))))
       by (intros l _; rewrite <- bsum_mul_l; apply bsum_ext; intros q _; ring).
     rewrite bsum_swap. apply bsum_ext; intros q _. rewrite bsum_mul_l. reflexivity. Qed.
+(* ---- operators as tensor trains (C04): the physical index of an MPO site is p = o * D + i (output digit o, input digit i, both
+   below D); for the merged tensor theta of update_mpo, D = dd * dd and o = (o1, o2), i = (i1, i2) (the einsum "abcd,efdg->aecbfg").
+   apply_gate contracts the gate with the output digits ("ijkl,klmnop->ijmnop"), or its complex conjugate with the input digits
+   when the gate comes from the second circuit.  Entry by entry this is the matrix product G . O, resp. O . G^dagger. ---- *)
+Lemma bsum_plus n m f : bsum (n + m) f = bsum n f + bsum m (fun y => f (n + y)%nat).
+Proof. induction m as [|m IH]; [rewrite Nat.add_0_r; cbn [bsum]; ring|].
+  rewrite Nat.add_succ_r. cbn [bsum]. rewrite IH. ring. Qed.
+Lemma bsum_split a b f : bsum (a * b) f = bsum a (fun x => bsum b (fun y => f (x * b + y)%nat)).
+Proof. induction a as [|a IH]; [reflexivity|]. rewrite Nat.mul_succ_l, bsum_plus, IH. reflexivity. Qed.
+Definition lact (U : nat -> nat -> K) (D : nat) : nat -> nat -> K :=
+  fun p q => U (p / D)%nat (q / D)%nat * (if Nat.eqb (p mod D) (q mod D) then k1 else k0).
+Definition ract (U : nat -> nat -> K) (D : nat) : nat -> nat -> K :=
+  fun p q => (if Nat.eqb (p / D) (q / D) then k1 else k0) * cj (U (p mod D)%nat (q mod D)%nat).
+Lemma divmod_digits D x y : y < D -> ((x * D + y) / D = x /\ (x * D + y) mod D = y)%nat.
+Proof. intro H. assert (D <> 0)%nat by lia. split.
+  - rewrite Nat.div_add_l by assumption. rewrite Nat.div_small by assumption. lia.
+  - rewrite Nat.add_comm, Nat.mod_add by assumption. apply Nat.mod_small; assumption. Qed.
+Lemma lact_sum U D p F : (0 < D)%nat ->
+  bsum (D * D) (fun q => lact U D p q * F q) = bsum D (fun o' => U (p / D)%nat o' * F (o' * D + p mod D)%nat).
+Proof. intro HD. rewrite bsum_split. apply bsum_ext; intros x _.
+  assert (Hm : (p mod D < D)%nat) by (apply Nat.mod_upper_bound; lia).
+  rewrite (bsum_ext D _ (fun y => (if Nat.eqb (p mod D) y then k1 else k0) * (U (p / D)%nat x * F (x * D + y)%nat))).
+  - apply bsum_delta; exact Hm.
+  - intros y Hy. unfold lact. destruct (divmod_digits D x y Hy) as [E1 E2]. rewrite E1, E2. ring. Qed.
+Lemma ract_sum U D p F : (0 < D)%nat -> (p < D * D)%nat ->
+  bsum (D * D) (fun q => ract U D p q * F q) = bsum D (fun i' => cj (U (p mod D)%nat i') * F ((p / D) * D + i')%nat).
+Proof. intros HD Hp. rewrite bsum_split.
+  assert (Hd : (p / D < D)%nat) by (apply Nat.div_lt_upper_bound; lia).
+  rewrite (bsum_ext D _ (fun x => (if Nat.eqb (p / D) x then k1 else k0) * bsum D (fun y => cj (U (p mod D)%nat y) * F (x * D + y)%nat))).
+  - apply bsum_delta; exact Hd.
+  - intros x _. rewrite <- bsum_mul_l. apply bsum_ext; intros y Hy. unfold ract.
+    destruct (divmod_digits D x y Hy) as [E1 E2]. rewrite E1, E2. ring. Qed.
+(* left application: the entry (o, i) of the new operator is sum_o' G(o, o') * old entry (o', i) — the product G . O *)
+Theorem mpo_left_application pre s post U D spre p spost : (0 < D)%nat -> d s = (D * D)%nat -> length spre = length pre ->
+  amp (pre ++ rotate (lact U D) s :: post) (spre ++ p :: spost)
+  = bsum D (fun o' => U (p / D)%nat o' * amp (pre ++ s :: post) (spre ++ (o' * D + p mod D)%nat :: spost)).
+Proof. intros HD Hs H. rewrite local_operator_acts_on_amplitudes by exact H. rewrite Hs. apply lact_sum; exact HD. Qed.
+(* right application of the conjugated gate: sum_i' old entry (o, i') * conj G(i, i') — the product O . G^dagger *)
+Theorem mpo_right_application pre s post U D spre p spost : (0 < D)%nat -> d s = (D * D)%nat -> (p < D * D)%nat -> length spre = length pre ->
+  amp (pre ++ rotate (ract U D) s :: post) (spre ++ p :: spost)
+  = bsum D (fun i' => cj (U (p mod D)%nat i') * amp (pre ++ s :: post) (spre ++ ((p / D) * D + i')%nat :: spost)).
+Proof. intros HD Hs Hp H. rewrite local_operator_acts_on_amplitudes by exact H. rewrite Hs. apply ract_sum; assumption. Qed.
+(* the merged tensor of two neighbouring MPO sites with output digits grouped before input digits, and its amplitudes: the entry of
+   the chain with the merged site at ((o1, o2), (i1, i2)) is the entry of the original chain at (o1, i1), (o2, i2) *)
+Definition merge_mpo (dd : nat) (s1 s2 : site) : site :=
+  {| d := (dd * dd) * (dd * dd); chiL := chiL s1; chiR := chiR s2;
+     A := fun q l r => bsum (chiR s1) (fun k =>
+            A s1 ((q / (dd * dd) / dd) * dd + (q mod (dd * dd)) / dd)%nat l k * A s2 ((q / (dd * dd) mod dd) * dd + (q mod (dd * dd)) mod dd)%nat k r) |}.
+Lemma step_merge_mpo v dd s1 s2 q r : chiR s1 = chiL s2 ->
+  step v (merge_mpo dd s1 s2) q r
+  = step (step v s1 ((q / (dd * dd) / dd) * dd + (q mod (dd * dd)) / dd)%nat) s2 ((q / (dd * dd) mod dd) * dd + (q mod (dd * dd)) mod dd)%nat r.
+Proof. intro H. unfold step, merge_mpo. cbn [chiL A]. rewrite <- H.
+  set (p1 := ((q / (dd * dd) / dd) * dd + (q mod (dd * dd)) / dd)%nat). set (p2 := ((q / (dd * dd) mod dd) * dd + (q mod (dd * dd)) mod dd)%nat).
+  rewrite (bsum_ext (chiL s1) _ (fun l => bsum (chiR s1) (fun k => v l * A s1 p1 l k * A s2 p2 k r)))
+    by (intros l _; rewrite <- bsum_mul_l; apply bsum_ext; intros k _; ring).
+  rewrite bsum_swap. apply bsum_ext; intros k _. rewrite <- bsum_mul_r. reflexivity. Qed.
+Theorem merged_mpo_amplitudes pre s1 s2 post dd spre q spost : chiR s1 = chiL s2 -> length spre = length pre ->
+  amp (pre ++ merge_mpo dd s1 s2 :: post) (spre ++ q :: spost)
+  = amp (pre ++ s1 :: s2 :: post)
+        (spre ++ ((q / (dd * dd) / dd) * dd + (q mod (dd * dd)) / dd)%nat :: ((q / (dd * dd) mod dd) * dd + (q mod (dd * dd)) mod dd)%nat :: spost).
+Proof. intros Hc H. unfold amp. rewrite !run_app by exact H. cbn [run].
+  apply run_ext. intro r. apply step_merge_mpo; exact Hc. Qed.
 End TT.
